@@ -365,12 +365,17 @@ fn cmd_fault(m: &HashMap<String, String>) -> i32 {
                 positions.push(x as u64);
                 x += step;
             }
-            // at least the first occurrence of every class
-            let mut seen = std::collections::HashSet::new();
+            // stratified: the first, the last and one occurrence in between of every
+            // (call class, file kind) pair - e.g. the size query on a write-ahead log happens only
+            // when a log is reopened for appending and would hardly ever be hit by even spacing
+            let mut by_class: std::collections::BTreeMap<String, Vec<u64>> = Default::default();
             for (i, c) in &reference.classes {
-                if seen.insert(*c) {
-                    positions.push(*i);
-                }
+                by_class.entry(c.clone()).or_default().push(*i);
+            }
+            for (_, occ) in by_class {
+                positions.push(occ[0]);
+                positions.push(occ[occ.len() - 1]);
+                positions.push(occ[(occ.len() * 5 / 8).min(occ.len() - 1)]);
             }
             positions.sort_unstable();
             positions.dedup();
@@ -420,7 +425,7 @@ fn cmd_fault(m: &HashMap<String, String>) -> i32 {
         }
         wd.stop();
         results.push(json!({"seed": 0, "wseed": seed, "status": "reference", "total_ops": n,
-                            "classes": reference.classes.iter().map(|c| c.1).collect::<std::collections::BTreeSet<_>>()}));
+                            "classes": reference.classes.iter().map(|c| c.1.clone()).collect::<std::collections::BTreeSet<_>>()}));
     }
     std::fs::write(
         out.join("results.json"),
